@@ -385,12 +385,30 @@ fn arrow_inner(input: &[u8], rg: &RefGame) -> Result<u64, (String, String)> {
 		return Err(e("reimport-bytes", format!("from_struct_array(into_struct_array(f)) serialises differently: first difference at byte {}", d)));
 	}
 	frames_equal(&g1.frames, &g3.frames).map_err(|m| e("reimport-frames", m))?;
+	// from a non-initial state: frames imported from a WINDOW of the exported array (rows k..; their buffers then
+	// start at a non-zero offset, validity bitmaps at a bit offset that is not a multiple of 8 for k = 1, 3, 7, 9),
+	// exported and imported again, against the same window imported directly
+	let full = g3.frames.into_struct_array(version, &occ);
+	for k in [1usize, 3, 7, 8, 9] {
+		if k >= rows {
+			continue;
+		}
+		let window = full.clone().sliced(k, rows - k);
+		let fa = im::Frame::from_struct_array(window.clone(), version);
+		let fb = im::Frame::from_struct_array(window, version);
+		let exported = fa.into_struct_array(version, &occ);
+		if exported.len() != rows - k {
+			return Err(e("window-rows", format!("frames imported from rows {}.. of the exported array export {} rows, expected {}", k, exported.len(), rows - k)));
+		}
+		let fc = im::Frame::from_struct_array(exported, version);
+		frames_equal(&fb, &fc).map_err(|m| e("window-reexport", format!("frames imported from rows {}.. of the exported array, then exported and imported again, differ from the window: {}", k, m)))?;
+	}
 	Ok(fnv_mix(rows as u64, xx(format!("{:?}", actual).as_bytes())))
 }
 
 pub fn run() {
 	let cx = ctx();
-	cx.note("rule", json!("all 784 versions x all 81 port/Ice-Climbers configurations (the player-less one included) with a 2-row game (second row: one character absent, one item), plus (thorough) the C04 history exploration; expected schema built twice - from the independent SPEC transcription and from gen/resources/frames.json read at check time; every exported leaf addressed by NAME and compared with the in-memory column, struct validity with presence, list offsets with item offsets; import direction must serialise to the identical .slp; non-trivial = has an absence or an item"));
+	cx.note("rule", json!("(windows) for every case, frames imported from rows k.. (k = 1, 3, 7, 8, 9) of the exported array are exported and imported again and equal the window imported directly (buffers at non-zero offsets, bitmaps at bit offsets that are not multiples of 8); all 784 versions x all 81 port/Ice-Climbers configurations (the player-less one included) with a 2-row game (second row: one character absent, one item), plus (thorough) the C04 history exploration; expected schema built twice - from the independent SPEC transcription and from gen/resources/frames.json read at check time; every exported leaf addressed by NAME and compared with the in-memory column, struct validity with presence, list offsets with item offsets; import direction must serialise to the identical .slp; non-trivial = has an absence or an item"));
 	cx.note("exhaustive", json!(true));
 	cx.note("assumptions", json!(["nullability flags and field metadata are not part of the schema comparison (the property names field names, nesting, order and primitive types)", "for 3.0-3.6, where Frame End carries no field, `end` is accepted as omitted or empty, and likewise `ports` for a game without players: Arrow cannot represent a struct without fields"]));
 	let mut cases: Vec<AbsReplay> = vec![];
